@@ -32,6 +32,70 @@ theorem offsetFromCluster_ok {p : Bpb} (hr : p.InRange) (hv : p.Valid) {c : Nat}
   rw [u32Sub_of_le hc2, ebind_ok, u32Mul_of_lt (by omega), ebind_ok, u32Add_of_lt (by omega), ebind_ok,
     u64Mul_of_lt (by omega)]
 
+/-- `sector_from_cluster` on a validated boot sector: exact, no `u32` wrap, below the declared sector count -/
+theorem sectorFromCluster_ok {p : Bpb} (hr : p.InRange) (hv : p.Valid) {c : Nat} (hc2 : 2 ≤ c)
+    (hc : c < p.tcNat + 2) :
+    sectorFromCluster p p.fdsNat c = .ok (p.fdsNat + (c - 2) * p.sectorsPerCluster) ∧
+    p.fdsNat + (c - 2) * p.sectorsPerCluster + p.sectorsPerCluster ≤ p.totalSectors := by
+  have hts := totalSectors_lt hr
+  have hfds := hv.fds
+  obtain ⟨h1, _, _, _⟩ := offset_bounds hv.spc hv.bps hts hc2 hc
+  refine ⟨?_, by omega⟩
+  unfold sectorFromCluster sectorsFromClusters
+  rw [u32Sub_of_le hc2, ebind_ok, u32Mul_of_lt (by omega), ebind_ok, u32Add_of_lt (by omega)]
+
+/-! ### every getter is total on a validated boot sector -/
+
+theorem sectorsPerAllFats_valid {p : Bpb} (hv : p.Valid) :
+    p.sectorsPerAllFats = .ok (p.fats * p.sectorsPerFat) := by
+  unfold sectorsPerAllFats; rw [u32Mul_of_lt hv.fatsXspf]
+
+theorem firstDataSector_valid {p : Bpb} (hr : p.InRange) (hv : p.Valid) : p.firstDataSector = .ok p.fdsNat := by
+  have := hv.bps; have := hv.fds; have := totalSectors_lt hr
+  exact (firstDataSector_ok hr (by omega)).2 ⟨hv.fatsXspf, by omega, rfl⟩
+
+theorem totalClusters_valid {p : Bpb} (hr : p.InRange) (hv : p.Valid) : p.totalClusters = .ok p.tcNat := by
+  have := hv.bps; have := hv.fds; have := totalSectors_lt hr; have := hv.spc
+  exact (totalClusters_ok hr (by omega)).2 ⟨hv.fatsXspf, by omega, by omega, by omega, rfl⟩
+
+/-- `bytes_from_sectors` is total on every `u32` argument -/
+theorem bytesFromSectors_total {p : Bpb} (hr : p.InRange) {s : Nat} (hs : s < 4294967296) :
+    p.bytesFromSectors s = .ok (s * p.bytesPerSector) := by
+  have : s * p.bytesPerSector < 4294967296 * 65536 := Nat.mul_lt_mul'' hs hr.bps
+  unfold bytesFromSectors; rw [u64Mul_of_lt (by omega)]
+
+/-- `sectors_from_clusters` / `bytes_from_clusters` are total up to the cluster count -/
+theorem sectorsFromClusters_valid {p : Bpb} (hr : p.InRange) (hv : p.Valid) {k : Nat} (hk : k ≤ p.tcNat) :
+    p.sectorsFromClusters k = .ok (k * p.sectorsPerCluster) ∧ k * p.sectorsPerCluster ≤ p.totalSectors - p.fdsNat := by
+  have hts := totalSectors_lt hr
+  have hle : k * p.sectorsPerCluster ≤ p.totalSectors - p.fdsNat := by
+    unfold tcNat at hk
+    rcases hv.spc with h | h | h | h | h | h | h | h <;> rw [h] at hk ⊢ <;> omega
+  refine ⟨?_, hle⟩
+  unfold sectorsFromClusters; rw [u32Mul_of_lt (by omega)]
+
+theorem bytesFromClusters_valid {p : Bpb} (hr : p.InRange) (hv : p.Valid) {k : Nat} (hk : k ≤ p.tcNat) :
+    bytesFromClusters p k = .ok (k * p.sectorsPerCluster * p.bytesPerSector) := by
+  obtain ⟨h1, h2⟩ := sectorsFromClusters_valid hr hv hk
+  have hts := totalSectors_lt hr
+  unfold bytesFromClusters
+  rw [h1, ebind_ok, bytesFromSectors_total hr (by omega)]
+
+/-- `clusters_from_bytes` is total for every byte count below 2^63 -/
+theorem clustersFromBytes_valid {p : Bpb} (hr : p.InRange) (hv : p.Valid) {n : Nat} (hn : n < 9223372036854775808) :
+    p.clustersFromBytes n =
+      .ok ((n + p.sectorsPerCluster * p.bytesPerSector - 1) / (p.sectorsPerCluster * p.bytesPerSector) % 4294967296) := by
+  have h1 := hr.bps; have h2 := hr.spc
+  have hm : p.sectorsPerCluster * p.bytesPerSector < 256 * 65536 := Nat.mul_lt_mul'' h2 h1
+  have hpos : 0 < p.sectorsPerCluster * p.bytesPerSector := by
+    have := hv.bps; have := hv.spc
+    exact Nat.mul_pos (by omega) (by omega)
+  unfold clustersFromBytes
+  rw [clusterSize_eq hr, ebind_ok, u64Add_of_lt (by omega), ebind_ok]
+  unfold u64Sub u64Div
+  rw [if_pos (by omega), ebind_ok, if_neg (by omega), ebind_ok]
+  rfl
+
 /-- FAT entry offsets stay inside one FAT copy of `fatBytes` bytes when the FAT has an entry for every cluster -/
 theorem fatEntry_inside {bits fatBytes total c : Nat} (hbits : bits = 12 ∨ bits = 16 ∨ bits = 32)
     (hfat : total + 2 ≤ fatBytes * 8 / bits) (hc : c < total + 2) :
